@@ -412,3 +412,147 @@ def special_C02(tier, seed, harness, work):
         open(rp, "w").write("the K1 scenario diverges before the wrap-around probe:\nimpl: %s\nmodel: %s\n" % (gi, gm))
         viol.append((rp, ""))
     return {"coverage": {"known_finding_scenarios": 1}, "violations": viol, "known": known}
+
+
+# ---------------------------------------------------------------------------------------------
+# C13 determinism: the same operation file, re-executed in fresh processes under different GC
+# regimes, must give byte-identical traces (handles, iteration order, events, return values)
+
+def gen_ops(harness, profile, seed, seqs, n, work, tag):
+    ops_p = os.path.join(work, tag + ".ops")
+    impl_p = os.path.join(work, tag + ".impl")
+    subprocess.run([harness, "gen", profile, str(seed), str(seqs), str(n), ops_p, impl_p], check=True,
+                   stdout=subprocess.PIPE, stderr=subprocess.STDOUT, timeout=3000)
+    return ops_p, impl_p
+
+
+def special_C13(tier, seed, harness, work):
+    cov = {"determinism_runs": 0, "determinism_ops": 0, "regimes": ["same process as generator", "fresh process", "fresh process GOGC=1", "fresh process GC forced every 7 ops", "fresh process GOGC=off", "tiny build x2"]}
+    viol = []
+    plan = [("mixed", 30, 300), ("relations", 20, 300), ("cache", 20, 300), ("batch", 20, 300), ("events", 20, 300)]
+    if tier == "thorough":
+        plan = [(p, s * 12, 500) for p, s, n in plan] + [("churn", 200, 500), ("reset", 200, 400)]
+    ok_t, _, harness_tiny = vlib.build_harness("verif,tiny")
+    for profile, seqs, n in plan:
+        ops_p, impl_p = gen_ops(harness, profile, seed * 17 + 3, seqs, n, work, "det-" + profile)
+        base = open(impl_p, "rb").read()
+        regimes = [("fresh", {}), ("gogc1", {"GOGC": "1"}), ("gcforced", {"VERIF_GC_EVERY": "7"}), ("gcoff", {"GOGC": "off"})]
+        for name, env in regimes:
+            out = subprocess.run([harness, "run", ops_p], stdout=subprocess.PIPE, env=dict(os.environ, GOMEMLIMIT="4GiB", **env), timeout=3000).stdout
+            cov["determinism_runs"] += 1
+            if out != base:
+                a, b = base.decode(errors="replace").split("\n"), out.decode(errors="replace").split("\n")
+                i = next((k for k in range(min(len(a), len(b))) if a[k] != b[k]), min(len(a), len(b)))
+                rp = os.path.join(VERIF, "replays", "C13-%s-%s.ops" % (profile, name))
+                shutil.copy(ops_p, rp)
+                open(rp, "a").write("\n# regime %s: output line %d differs from the first execution\n# first : %s\n# second: %s\n" % (name, i, a[i] if i < len(a) else "<eof>", b[i] if i < len(b) else "<eof>"))
+                viol.append((rp, ""))
+                break
+        cov["determinism_ops"] += len(base.split(b"\n="))
+        if viol:
+            break
+    if ok_t and not viol:
+        # the tiny build with itself
+        ops_p, impl_p = gen_ops(harness_tiny, "mixed", seed * 17 + 5, 20, 300, work, "det-tiny")
+        out = subprocess.run([harness_tiny, "run", ops_p], stdout=subprocess.PIPE, env=dict(os.environ, GOGC="1"), timeout=3000).stdout
+        cov["determinism_runs"] += 1
+        if out != open(impl_p, "rb").read():
+            rp = os.path.join(VERIF, "replays", "C13-tiny.ops")
+            shutil.copy(ops_p, rp)
+            viol.append((rp, ""))
+    cov["evaluations"] = cov["determinism_runs"]
+    cov["distinct_nontrivial"] = cov["determinism_runs"]
+    cov["rule"] = "one evaluation = one complete re-execution of a generated operation file in a fresh process under a GC regime, compared byte for byte (handles, iteration order, events with delivery context, return values) with the first execution"
+    cov["samples"] = ["profile mixed, 30 sequences x 300 ops, regimes fresh / GOGC=1 / forced GC every 7 ops / GOGC=off"]
+    cov["explanation"] = "Lean part: the model is a function of the operation list (run_deterministic) and the regenerated fact that non-test code iterates no map (no_map_iteration). The quantifier over processes and GC schedules is explored by re-execution, not proved."
+    return {"coverage": cov, "violations": viol}
+
+
+# ---------------------------------------------------------------------------------------------
+# C19 isolation: N worlds driven concurrently, one goroutine each, under the race detector; each
+# world's trace must equal the trace of the same sequence run alone
+
+def special_C19(tier, seed, harness, work):
+    cov = {"parallel_runs": 0, "worlds": 0}
+    viol = []
+    with vlib.Lock("go-race"):
+        binp = os.path.join(vlib.HARNESS, "bin", "harness-race")
+        shutil.copy(os.path.join(REPO, "go.sum"), os.path.join(vlib.HARNESS, "go.sum"))
+        rc, out = vlib.run(["go", "build", "-race", "-tags", "verif", "-o", binp, "."], cwd=vlib.HARNESS, env=vlib.GOENV)
+    if rc != 0:
+        rp = os.path.join(VERIF, "replays", "C19-build.txt")
+        open(rp, "w").write("race-enabled harness does not build:\n" + out)
+        return {"coverage": cov, "violations": [(rp, "no-failing-input-found")]}
+    rounds = 2 if tier == "quick" else 12
+    nworlds = 8 if tier == "quick" else 16
+    for rd in range(rounds):
+        files, alone = [], []
+        profiles = ["mixed", "relations", "cache", "batch", "events", "churn", "reset", "moves"]
+        for i in range(nworlds):
+            # one sequence per file = one world per goroutine; different seeds register types in different orders
+            ops_p, impl_p = gen_ops(harness, profiles[i % len(profiles)], seed * 1000 + rd * 100 + i, 1, 400, work, "par-%d-%d" % (rd, i))
+            files.append(ops_p)
+            alone.append(open(impl_p, "rb").read())
+        prefix = os.path.join(work, "parout-%d" % rd)
+        p = subprocess.run([binp, "par", prefix] + files, stdout=subprocess.PIPE, stderr=subprocess.PIPE, timeout=3000,
+                           env=dict(os.environ, GORACE="halt_on_error=1 exitcode=66"))
+        cov["parallel_runs"] += 1
+        cov["worlds"] += nworlds
+        err = p.stderr.decode(errors="replace")
+        if p.returncode != 0 or "DATA RACE" in err:
+            rp = os.path.join(VERIF, "replays", "C19-race-%d.txt" % rd)
+            with open(rp, "w") as f:
+                f.write("# worlds driven concurrently (one goroutine each) under the race detector: exit %d\n%s\n# operation files:\n" % (p.returncode, err[-6000:]))
+                for fn in files:
+                    f.write("## " + fn + "\n" + open(fn).read() + "\n")
+            viol.append((rp, ""))
+            break
+        for i in range(nworlds):
+            got = open("%s.%d" % (prefix, i), "rb").read()
+            if got != alone[i]:
+                rp = os.path.join(VERIF, "replays", "C19-crosstalk-%d-%d.ops" % (rd, i))
+                shutil.copy(files[i], rp)
+                open(rp, "a").write("\n# this world's trace differs when it runs concurrently with %d other worlds\n" % (nworlds - 1))
+                viol.append((rp, ""))
+                break
+        if viol:
+            break
+    cov["evaluations"] = cov["worlds"]
+    cov["distinct_nontrivial"] = cov["worlds"]
+    cov["rule"] = "one evaluation = one world driven through a generated 400-operation sequence in its own goroutine concurrently with the others, under -race; its trace is compared byte for byte with the same sequence run alone"
+    cov["samples"] = ["8 worlds (profiles mixed, relations, cache, batch, events, churn, reset, moves; different registration orders) x 400 ops, 2 rounds"]
+    cov["explanation"] = "Lean part: frame over a product of worlds (step_frame) and the regenerated fact that no package-level variable is written outside the never-enabled escape sink (no_shared_mutable_state). Data-race freedom over all interleavings is explored with the race detector, not proved."
+    return {"coverage": cov, "violations": viol}
+
+
+# ---------------------------------------------------------------------------------------------
+# C14 pointer-holding components under GC: child processes (a runtime fatal error kills the child)
+
+def special_C14(tier, seed, harness, work):
+    cov = {"gc_arm_runs": []}
+    viol = []
+    secs = "2" if tier == "quick" else "25"
+    runs = [("soak natural GC", ["gcarm", "soak", secs, str(seed)], {}),
+            ("soak GOGC=1", ["gcarm", "soak", secs, str(seed + 1)], {"GOGC": "1"}),
+            ("soak GOGC=10 GOMAXPROCS=2", ["gcarm", "soak", secs, str(seed + 2)], {"GOGC": "10", "GOMAXPROCS": "2"}),
+            ("retain (finalizers run after removal / reset)", ["gcarm", "retain"], {}),
+            ("escape (non-escaping literals at call sites)", ["gcarm", "escape"], {})]
+    for name, args, env in runs:
+        try:
+            p = subprocess.run([harness] + args, stdout=subprocess.PIPE, stderr=subprocess.STDOUT, timeout=600,
+                               env=dict(os.environ, GOMEMLIMIT="4GiB", GOTRACEBACK="single", **env))
+            out, rc = p.stdout.decode(errors="replace"), p.returncode
+        except subprocess.TimeoutExpired:
+            out, rc = "timeout", 124
+        cov["gc_arm_runs"].append({"run": name, "rc": rc, "summary": out.strip().split("\n")[-1][:200]})
+        if rc != 0:
+            rp = os.path.join(VERIF, "replays", "C14-%s.txt" % args[1])
+            open(rp, "w").write("# C14: %s failed (exit %d). Re-run: /verif/harness/bin/harness-verif %s   (env %s)\n%s\n" % (name, rc, " ".join(args), env, out[-6000:]))
+            viol.append((rp, ""))
+            break
+    cov["evaluations"] = len(cov["gc_arm_runs"])
+    cov["distinct_nontrivial"] = len(cov["gc_arm_runs"])
+    cov["rule"] = "one evaluation = one child process: a soak of ~300k moves/removals/growth/batch moves on 1500 entities whose components reference heap payloads reachable only through them, with per-entity token checks, under a GC regime; or the finalizer-based retention scenarios; or the call-site shapes"
+    cov["samples"] = [r["run"] + ": " + r["summary"] for r in cov["gc_arm_runs"]]
+    cov["explanation"] = "GC timing, write barriers for raw byte copies and escape analysis cannot be expressed in a sequential value-level Lean model; this property is explored by the GC arm (soak under three GC regimes, finalizer-based retention, call-site shapes) plus the `pointers` correspondence profile (pointer-carrying components with forced GCs, values compared with the model). Finding F15 (fixed) was found by exactly this soak within milliseconds."
+    return {"coverage": cov, "violations": viol}
